@@ -6,8 +6,12 @@ src = "%s/%s/out/%s" % (os.environ.get("MUTDIR", "/tmp/mut"), prop, k)
 dst = "/verif/seeded/%s-%s" % (prop, slug)
 os.makedirs(dst, exist_ok=True)
 for f in os.listdir(src):
-    if f in ("patch.diff", "README.md", "BUILD") or f.startswith("demo.") or f.endswith((".c", ".cpp", ".sh", ".h")):
-        shutil.copy(os.path.join(src, f), dst)
+    full = os.path.join(src, f)
+    if os.path.isdir(full):
+        if f in ("stub", "harness", "include", "helpers"):   # headers / helper sources the demo needs
+            shutil.copytree(full, os.path.join(dst, f), dirs_exist_ok=True)
+    elif f in ("patch.diff", "README.md", "BUILD") or f.startswith("demo.") or f.endswith((".c", ".cpp", ".sh", ".h")):
+        shutil.copy(full, dst)
 ver = json.load(open("%s/%s.%s.verify.json" % (os.environ.get("MUTDIR", "/tmp/mut"), prop, k)))
 ev = json.load(open("%s/%s.%s.eval.json" % (os.environ.get("MUTDIR", "/tmp/mut"), prop, k)))
 meta = {
